@@ -6,7 +6,7 @@ Body in which every static call to a small, non-recursive, non-coroutine crate f
 callee's blocks (arguments assigned to the callee's parameter locals, `return` turned into an assignment of the
 destination plus a jump).  Inlining preserves semantics, so a rule that holds on an inlined body holds on the
 program.  Nothing is executed; this is a graph rewrite of the compiler's MIR."""
-import copy
+import copy, re
 from .facts import Body
 
 _CACHE = {}
@@ -237,7 +237,26 @@ def _thread_returns(blocks, first, last, ret_local):
     for bi in range(first, last):
         blk = blocks[bi]
         t = blk["term"]
-        if t["t"] not in ("goto", "drop") or t.get("target") is None or blk.get("cleanup"):
+        if blk.get("cleanup"):
+            continue
+        if t["t"] == "call" and t.get("target") is not None and _plain(t["dest"]) == ret_local:
+            # `return Err(e)?`-style exits: FromResidual::from_residual always builds the failure variant
+            k = t["func"].get("k") if isinstance(t["func"], dict) else None
+            if k and k.get("fn") in ("std::ops::FromResidual::from_residual", "core::ops::FromResidual::from_residual"):
+                ty = k.get("ty") or ""
+                out = ty.rsplit("->", 1)[-1]
+                v = "Err" if re.search(r"^\s*(std|core)::result::Result<", out) else ("None" if re.search(r"^\s*(std|core)::option::Option<", out) else None)
+                if v:
+                    clones = _thread_from(blocks, t["target"], {ret_local: v})
+                    if clones is not None:
+                        base = len(blocks)
+                        for i, c in enumerate(clones[:-1]):
+                            c["term"]["target"] = base + i + 1
+                        blocks.extend(clones)
+                        blk["term"] = dict(t, target=base)
+                        n += 1
+            continue
+        if t["t"] not in ("goto", "drop") or t.get("target") is None:
             continue
         variant = const = None
         for st in reversed(blk["stmts"]):
@@ -263,6 +282,226 @@ def _thread_returns(blocks, first, last, ret_local):
         blk["term"] = dict(t, target=base)
         n += 1
     return n
+
+
+def _targets(t):
+    out = []
+    for k in ("target", "otherwise", "cleanup_target", "real_target", "imaginary_target", "drop"):
+        v = t.get(k)
+        if isinstance(v, int) and not isinstance(v, bool):
+            out.append(v)
+    u = t.get("unwind")
+    if isinstance(u, int) and not isinstance(u, bool):
+        out.append(u)
+    for x in t.get("targets", []) or []:
+        if isinstance(x, list) and len(x) == 2 and isinstance(x[1], int):
+            out.append(x[1])
+    return out
+
+
+def _prune_unreachable(blocks):
+    """Blocks no path from the entry reaches any more (the joined continuation after every exit was threaded) are
+    emptied: they keep their index but define and call nothing, so they cannot make a local look multiply defined."""
+    seen = set()
+    stack = [0]
+    while stack:
+        b = stack.pop()
+        if b in seen or b >= len(blocks):
+            continue
+        seen.add(b)
+        stack.extend(_targets(blocks[b]["term"]))
+    for i, blk in enumerate(blocks):
+        if i not in seen and (blk["stmts"] or blk["term"]["t"] != "unreachable"):
+            blk["stmts"] = []
+            blk["term"] = {"t": "unreachable", "pruned": True}
+
+
+# ---------------------------------------------------------------------------------------------------------------
+# Splitting a local into its def-use webs.
+#
+# After inlining and threading, one MIR local (the callee's return slot, the `?` temporary) is assigned on several
+# paths that never meet at a use: each use is reached by exactly one of the definitions.  The provenance terms
+# (engine/sym.py) are flow-insensitive and would call such a local "multiply defined".  Renaming every web (a set
+# of definitions and the uses they reach, closed under "reach the same use") to its own local changes nothing
+# about the program and makes those locals singly defined again.
+
+def _places(node, out, role="use"):
+    """Collect (place dict, role) for every place occurrence under node."""
+    if isinstance(node, dict):
+        if "l" in node and "p" in node and isinstance(node["l"], int) and isinstance(node["p"], list):
+            out.append((node, role))
+            for pe in node["p"]:
+                if pe and pe[0] == "i" and isinstance(pe[1], int):
+                    out.append(({"l": pe[1], "p": [], "_idx_of": pe}, "use"))
+            return
+        for k, v in node.items():
+            if k in ("sp", "locals"):
+                continue
+            _places(v, out, role)
+    elif isinstance(node, list):
+        for x in node:
+            _places(x, out, role)
+
+
+def split_webs(rec):
+    """Rewrite rec (a body record) in place; returns the number of locals split."""
+    blocks = rec["blocks"]
+    nloc = len(rec["locals"])
+    argc = rec.get("arg_count", 0)
+    # locals we must not touch: arguments, the return place, address-taken, partially assigned, named in debuginfo
+    frozen = set(range(0, argc + 1))
+    defs = {}                      # local -> [(bb, idx)]   idx: statement index, or "term"
+    for bi, blk in enumerate(blocks):
+        for si, st in enumerate(blk["stmts"]):
+            if st.get("s") == "assign":
+                pl = st["pl"]
+                if pl["p"]:
+                    frozen.add(pl["l"])
+                else:
+                    defs.setdefault(pl["l"], []).append((bi, si))
+                rv = st["rv"]
+                if rv.get("r") in ("ref", "rawptr") and isinstance(rv.get("pl"), dict) and not rv["pl"]["p"]:
+                    frozen.add(rv["pl"]["l"])
+            else:
+                acc = []
+                _places(st, acc)
+                for pl, _ in acc:
+                    frozen.add(pl["l"])
+        t = blk["term"]
+        if t["t"] == "call":
+            d = t["dest"]
+            if d["p"]:
+                frozen.add(d["l"])
+            else:
+                defs.setdefault(d["l"], []).append((bi, "term"))
+        elif t["t"] == "yield":
+            frozen.add(t["resume_arg"]["l"])
+        elif t["t"] == "drop":
+            pass
+    for name, pl in rec.get("upvars", []):
+        if isinstance(pl, dict) and "l" in pl:
+            frozen.add(pl["l"])
+    cands = [l for l, ds in defs.items() if len(ds) > 1 and l not in frozen]
+    if not cands:
+        return 0
+    cset = set(cands)
+    # reaching definitions (per candidate local: set of def ids), forward may-analysis
+    succs = [_targets(b["term"]) for b in blocks]
+    gen = [dict() for _ in blocks]            # bb -> {local: def id at block end}
+    for l in cands:
+        for (bi, si) in defs[l]:
+            cur = gen[bi].get(l)
+            if cur is None or (cur[1] != "term" and (si == "term" or si > cur[1])):
+                gen[bi][l] = (bi, si)
+    IN = [dict() for _ in blocks]
+    work = list(range(len(blocks)))
+    inq = set(work)
+    while work:
+        b = work.pop()
+        inq.discard(b)
+        out = {l: set(v) for l, v in IN[b].items()}
+        for l, d in gen[b].items():
+            out[l] = {d}
+        for sck in succs[b]:
+            if sck >= len(blocks):
+                continue
+            changed = False
+            tgt = IN[sck]
+            for l, ds in out.items():
+                cur = tgt.get(l)
+                if cur is None:
+                    tgt[l] = set(ds)
+                    changed = True
+                elif not ds <= cur:
+                    cur |= ds
+                    changed = True
+            if changed and sck not in inq:
+                inq.add(sck)
+                work.append(sck)
+    # union-find over definitions
+    parent = {}
+
+    def find(x):
+        while parent.setdefault(x, x) != x:
+            parent[x] = parent[parent[x]]
+            x = parent[x]
+        return x
+
+    def union(a, b):
+        ra, rb = find(a), find(b)
+        if ra != rb:
+            parent[ra] = rb
+    uses = []                      # (place dict, local, frozenset of reaching defs)
+    bad = set()
+    for bi, blk in enumerate(blocks):
+        cur = {l: set(v) for l, v in IN[bi].items()}
+
+        def note(node, skip=None):
+            acc = []
+            _places(node, acc)
+            for pl, _ in acc:
+                if pl is skip:
+                    continue
+                l = pl["l"]
+                if l in cset:
+                    rd = cur.get(l)
+                    if not rd:
+                        bad.add(l)          # read with no reaching definition we know of
+                    else:
+                        rd = frozenset(rd)
+                        first = next(iter(rd))
+                        for d in rd:
+                            union((l,) + d, (l,) + first)
+                        uses.append((pl, l, rd))
+        for si, st in enumerate(blk["stmts"]):
+            if st.get("s") == "assign":
+                note(st["rv"])
+                pl = st["pl"]
+                if not pl["p"] and pl["l"] in cset:
+                    cur[pl["l"]] = {(bi, si)}
+                else:
+                    note(pl)
+            else:
+                note(st)
+        t = blk["term"]
+        if t["t"] == "call":
+            note({k: v for k, v in t.items() if k != "dest"})
+            if t["dest"]["p"]:
+                note(t["dest"])
+        else:
+            note(t)
+    nsplit = 0
+    for l in cands:
+        if l in bad:
+            continue
+        webs = {}
+        for d in defs[l]:
+            webs.setdefault(find((l,) + d), []).append(d)
+        if len(webs) < 2:
+            continue
+        nsplit += 1
+        newname = {}
+        for k, (root, ds) in enumerate(sorted(webs.items(), key=lambda kv: min(kv[1], key=lambda d: (d[0], -1 if d[1] == "term" else d[1])))):
+            if k == 0:
+                newname[root] = l
+            else:
+                rec["locals"].append(dict(rec["locals"][l]))
+                newname[root] = len(rec["locals"]) - 1
+        for (bi, si) in defs[l]:
+            nl = newname[find((l, bi, si))]
+            if si == "term":
+                blocks[bi]["term"]["dest"]["l"] = nl
+            else:
+                blocks[bi]["stmts"][si]["pl"]["l"] = nl
+        for pl, ll, rd in uses:
+            if ll != l:
+                continue
+            nl = newname[find((l,) + next(iter(rd)))]
+            if "_idx_of" in pl:
+                pl["_idx_of"][1] = nl
+            else:
+                pl["l"] = nl
+    return nsplit
 
 
 def inline_once(facts, body, select=None, max_blocks=120):
@@ -309,6 +548,12 @@ def inline_once(facts, body, select=None, max_blocks=120):
         if target is not None:
             _thread_returns(blocks, boff, boff + len(cblocks), ret_local)
         n += 1
+    if n:
+        _prune_unreachable(blocks)
+        try:
+            split_webs(rec)
+        except Exception:
+            pass
     nb = Body(rec, facts)
     return nb, n
 
